@@ -25,8 +25,8 @@ func vc05Store(db SessionDatabase, scn *VerifC05Scn, kind string) SessionStore {
 	return db.GetStore(time.Duration(scn.TTL[kind])*time.Second, vc05Prefix[kind]...)
 }
 
-func vc05Consumer(db SessionDatabase, scn *VerifC05Scn, r VerifC05Req) func() string {
-	st := func() SessionStore { return vc05Store(db, scn, r.Kind) }
+func vc05Consumer(db func() SessionDatabase, scn *VerifC05Scn, r VerifC05Req) func() string {
+	st := func() SessionStore { return vc05Store(db(), scn, r.Kind) }
 	check := func(v string) string {
 		if v != r.Want {
 			return "mismatch"
@@ -120,7 +120,8 @@ func vc05StorageLevel(b *VerifC05Backend, scn *VerifC05Scn) ([]func() string, er
 	}
 	var fns []func() string
 	for i, r := range scn.Threads {
-		fns = append(fns, vc05Consumer(b.DBFor(i), scn, r))
+		i := i
+		fns = append(fns, vc05Consumer(func() SessionDatabase { return b.DBFor(i) }, scn, r))
 	}
 	return fns, nil
 }
@@ -224,6 +225,20 @@ func TestVerifC05(t *testing.T) {
 		other := vc05Variants(k, "s2")[0]
 		add(vc05Scn(k+"-2-distinct", "mem", false, append([]VerifC05Init{{Kind: k, ID: "s2", Val: "clientA"}}, init...), vs[0], other))
 	}
+	// the session database as the real engine builds it (Configure) and hands it out (GetSessionDatabase, called on every access)
+	VerifC05Engines["engine-mem"] = NewTestStorageEngine(t)
+	engRedis, _ := NewTestStorageEngineRedis(t)
+	VerifC05Engines["engine-redis"] = engRedis
+	for _, k := range kinds {
+		vs := vc05Variants(k, "s1")
+		init := []VerifC05Init{{Kind: k, ID: "s1", Val: "clientA"}}
+		if k == "s2s" || k == "jti" {
+			init = nil
+		}
+		add(vc05Scn(k+"-2-engine", []string{"engine-mem", "engine-redis"}[rng.Intn(2)], false, init, vs[0], vs[rng.Intn(len(vs))]))
+	}
+	add(vc05Scn("code-2-engine", "engine-mem", false, []VerifC05Init{{Kind: "code", ID: "s1", Val: "clientA"}}, vc05Variants("code", "s1")[0], vc05Variants("code", "s1")[0]))
+	add(vc05Scn("s2s-2-engine", "engine-redis", false, nil, vc05Variants("s2s", "s1")[0], vc05Variants("s2s", "s1")[0]))
 	// several nodes sharing one redis: every thread is served by its own node (own in-process mutex)
 	for _, k := range kinds {
 		vs := vc05Variants(k, "s1")
